@@ -1,4 +1,5 @@
 import Gmx.Props.C04
+import Gmx.Props.C03
 /-!
 # C05 — a swap never pays out more value than it takes in, beyond capped impact
 
@@ -145,6 +146,68 @@ theorem swap_lp_no_loss {W U : Nat} {m m' : Market} {q : SwapParams} {c : SwapCa
   rw [e1, e2]
   refine ⟨Nat.le_trans hfl (Nat.mul_le_mul_right _ (Nat.le_add_right _ _)), by have := f.liq_out; omega,
     by have := f.liq_in; omega, by rw [f.frame]⟩
+
+/-! ### zero impact from the CONFIGURATION -/
+
+/-- with both impact factors zero every price impact is zero. -/
+theorem priceImpact_zero_factors {W U : Nat} {p : ImpactParams} {d : PoolDelta} {x : Int} {bc : BalanceChange}
+    (hz : p.pos = 0 ∧ p.neg = 0) (h : d.priceImpact W U p = some (x, bc)) : x = 0 := by
+  have hadj : adjustedFactors p = (0, 0) := by
+    unfold adjustedFactors; rw [hz.1, hz.2]; simp
+  have f0 : ∀ v, fExact U p.exponent 0 v = 0 := by intro v; simp [fExact]
+  unfold PoolDelta.priceImpact at h
+  simp only at h
+  split at h
+  · cases h
+  · rename_i v hv
+    cases h
+    split at hv
+    · obtain ⟨a, b⟩ := C03.sameSide_spec hv
+      rw [hadj] at a b
+      simp only [f0] at a b
+      by_cases hlt : d.nextDiff < d.initialDiff
+      · exact (a hlt).1.trans (by simp)
+      · exact (b (by omega)).1.trans (by simp)
+    · obtain ⟨a, _⟩ := C03.crossOver_spec hv
+      rw [hadj] at a
+      simp only [f0] at a
+      exact a.trans (by simp)
+
+theorem swapImpactValue_zero_factors {W U : Nat} {p : ImpactParams} {vi : Option Pool} {d : PoolDelta}
+    {dL dS : Int} {pL pS : Nat} {incl : Bool} {x : Int} {bc : BalanceChange}
+    (hz : p.pos = 0 ∧ p.neg = 0) (h : swapImpactValue W U p vi d dL dS pL pS incl = some (x, bc)) : x = 0 := by
+  obtain ⟨real, rbc, hr, _, heq, _⟩ := swapImpact_worse_of_two h
+  have h0 := priceImpact_zero_factors hz hr
+  have := heq (Or.inl (by omega))
+  cases this
+  exact h0
+
+/-- **zero fees and zero impact FACTORS** (a statement about the configuration only): the output
+is the input converted at the least favourable prices, rounded down. -/
+theorem swap_zero_fee_zero_impact_config {W U : Nat} {m m' : Market} {q : SwapParams} {c : SwapCalc}
+    (h : swap W U m q = .ok (m', c)) (hfee : m.cfg.swapFee.pos = 0 ∧ m.cfg.swapFee.neg = 0)
+    (himp : m.cfg.swapImpact.pos = 0 ∧ m.cfg.swapImpact.neg = 0) :
+    c.impactValue = 0 ∧ c.tokenOut = q.amount * q.inPrice.min / q.outPrice.max := by
+  obtain ⟨_, _, hc, _, _⟩ := swap_ok h
+  have hi : c.impactValue = 0 := by
+    unfold swapCalc at hc
+    split at hc
+    · cases hc
+    · rename_i impact bc himpact
+      have hx : impact = 0 := by
+        unfold swapImpact at himpact
+        split at himpact
+        · cases himpact
+        · split at himpact
+          · cases himpact
+          · exact swapImpactValue_zero_factors himp himpact
+      split at hc
+      · cases hc
+      · rename_i af fees hf
+        subst hx
+        simp only [Int.lt_irrefl, gt_iff_lt, if_false] at hc
+        exact (swapCalcNegative_spec hc (by omega)).1
+  exact ⟨hi, (swap_zero_fee_zero_impact h hfee hi).1⟩
 
 /-! ### Non-vacuity (states of `C04`): spread prices, zero fees / zero impact -/
 
